@@ -186,6 +186,41 @@ instance (i : Inst) (ops : List Op) (k t : Nat) : Decidable (SkipOK i ops k t) :
 instance (i : Inst) (ops : List Op) : Decidable (Expressible i ops) := by
   unfold Expressible; exact inferInstance
 
+/-- job `j` has completed the stage before that of machine `m` by `t` and starts its operation of
+`m`'s stage only later -/
+def Waiting (i : Inst) (ops : List Op) (j m t : Nat) : Prop :=
+  (m / i.M = 0 ∨ ∃ o, o ∈ ops ∧ o.job = j ∧ o.stage i + 1 = m / i.M ∧ o.fin i ≤ (t : Int)) ∧
+  (∃ o, o ∈ ops ∧ o.job = j ∧ o.stage i = m / i.M ∧ (t : Int) < o.start)
+
+instance (i : Inst) (ops : List Op) (j m t : Nat) : Decidable (Waiting i ops j m t) := by
+  unfold Waiting; exact inferInstance
+
+/-- **Non-delay schedules**: no machine stands idle at a time `t` at which a job that has completed the
+previous stage is still waiting for its operation of the machine's stage (classical definition, no
+reference to the sweep). -/
+def NonDelay (i : Inst) (ops : List Op) : Prop :=
+  ∀ t, t ≤ horizon ops → ∀ m, m < MT i → Idle i ops m t → ¬ ∃ j, j < i.J ∧ Waiting i ops j m t
+
+/-- **Permutation schedules**: the jobs pass every stage in the same order. -/
+def PermutationSchedule (i : Inst) (ops : List Op) : Prop :=
+  ∀ o, o ∈ ops → ∀ o', o' ∈ ops → ∀ p, p ∈ ops → ∀ p', p' ∈ ops →
+    o.job = p.job → o'.job = p'.job → o.stage i = o'.stage i → p.stage i = p'.stage i →
+    o.start < o'.start → p.start ≤ p'.start
+
+/-- non-delay *with the sweep's tie rule*: whenever the sweep stands at an idle machine, no job is
+available there (in particular a job starting at the same time must start on the first idle machine of
+the sweep) -/
+def StrictNonDelay (i : Inst) (ops : List Op) : Prop :=
+  ∀ t, t ≤ horizon ops → ∀ sub, sub < MT i → Idle i ops (machineOf i sub) t →
+    ¬ ∃ j, j < i.J ∧ Avail i ops j t sub
+
+instance (i : Inst) (ops : List Op) : Decidable (NonDelay i ops) := by
+  unfold NonDelay; exact inferInstance
+instance (i : Inst) (ops : List Op) : Decidable (PermutationSchedule i ops) := by
+  unfold PermutationSchedule; exact inferInstance
+instance (i : Inst) (ops : List Op) : Decidable (StrictNonDelay i ops) := by
+  unfold StrictNonDelay; exact inferInstance
+
 /-- executable version used as the run-time oracle (it *is* the decision of the definition) -/
 def expressible (i : Inst) (ops : List Op) : Bool := decide (Expressible i ops)
 
